@@ -377,7 +377,7 @@ pub fn random_cfg<R: Rng>(rng: &mut R) -> Cfg {
         mflag: (*["", "", "", "+m", "-m"].choose(rng).unwrap()).into(),
         ps1: if marked { random_ps(rng, "@") } else { no_ps() },
         ps2: if marked { random_ps(rng, "@~") } else { no_ps() },
-        via: "rc".into(),
+        via: (if rng.gen_bool(0.3) { "env" } else { "rc" }).into(),
     }
 }
 
